@@ -271,6 +271,19 @@ def inline_dyndep(g):
     g2.dd_info = {}
     return g2
 
+def inline_deps(g):
+    """the same graph with every discovered (hidden) dependency declared as an implicit input"""
+    import copy
+    g2 = copy.deepcopy(g)
+    for e in g2.edges:
+        if e.hidden and (e.deps or e.depfile):
+            dd = g2.dd_info.get(e.dyndep, {}).get(e.out0, ([], [], False))[1] if e.dyndep else []
+            mv = [x for x in e.hidden if x not in dd]
+            e.imp = e.imp + [x for x in mv if x not in e.exp + e.imp]
+            e.oo = [x for x in e.oo if x not in mv]
+            e.hidden = [x for x in e.hidden if x in dd]
+    return g2
+
 def scenario_header(sid, g, sources=None):
     L = ['scenario %s' % sid]
     L.append('file %s %s' % (hx('build.ninja'), hx(g.manifest())))
